@@ -25,7 +25,8 @@ EXPLANATION = ('Reachability of nondeterministic external calls over the call gr
                'on the solve driver\'s paths, an upward-exposed-use analysis of the iteration loop body, typestate of '
                'the flag on path summaries, and effect sets of the stop routine; monotonicity rules are shared with '
                'C03 and C12 and re-run here.')
-TRUSTED = ['CPython ast', 'iva engine', 'floating-point arithmetic is deterministic on one machine']
+TRUSTED = ['CPython ast', 'iva engine', 'floating-point arithmetic is deterministic on one machine',
+           'logging / print calls do not change program state; __repr__ of logged objects is pure']
 
 
 def search_functions(ctx: Ctx) -> Set[str]:
